@@ -133,6 +133,7 @@ func verifFlightSnapshot() map[int64]verifFlightG {
 
 type verifFlightCall struct {
 	id, key int
+	obj     int // the object (group / manager / cache) the call is made on, 1-based
 	gid     atomic.Int64
 	inGate  atomic.Bool
 	inHook  atomic.Bool  // parked by the driver at a verifhook point inside the library
@@ -146,7 +147,8 @@ type verifFlightOp struct {
 	Op string `json:"op"`
 	K  int    `json:"k"`
 	O  string `json:"o"`
-	S  string `json:"s"` // rel: park the leader afterwards at hook "del" (before delete) / "done" (before wg.Done)
+	Ob int    `json:"ob"` // the object the move is made on (0 / absent = 1)
+	S  string `json:"s"`  // rel: park the leader afterwards at hook "del" (before delete) / "done" (before wg.Done)
 }
 
 // verifFlightSched runs one schedule against one fresh object.
@@ -180,8 +182,14 @@ func (s *verifFlightSched) fn(c *verifFlightCall) func() (any, error) {
 	}
 }
 
-func (s *verifFlightSched) start(key int) {
-	c := &verifFlightCall{id: len(s.calls) + 1, key: key, gate: make(chan string, 1), hookc: make(chan struct{}, 1)}
+func (s *verifFlightSched) start(key int) { s.startOn(1, key) }
+
+// startOn starts one more caller of key on object ob
+func (s *verifFlightSched) startOn(ob, key int) {
+	if ob < 1 {
+		ob = 1
+	}
+	c := &verifFlightCall{id: len(s.calls) + 1, key: key, obj: ob, gate: make(chan string, 1), hookc: make(chan struct{}, 1)}
 	s.mu.Lock()
 	s.calls = append(s.calls, c)
 	s.mu.Unlock()
@@ -193,7 +201,7 @@ func (s *verifFlightSched) start(key int) {
 				s.em.Emit(verifEv{"e": "callPanic", "c": c.id})
 			}
 		}()
-		s.em.Emit(verifEv{"e": "callStart", "c": c.id, "k": c.key})
+		s.em.Emit(verifEv{"e": "callStart", "c": c.id, "o": c.obj, "k": c.key})
 		v, e, fresh := s.invoke(c, s.fn(c))
 		s.em.Emit(verifEv{"e": "callEnd", "c": c.id, "v": v, "err": e, "fresh": fresh})
 	}()
@@ -289,10 +297,15 @@ func (s *verifFlightSched) rest() (gated, hooked []*verifFlightCall) {
 	return gated, hooked
 }
 
-func (s *verifFlightSched) release(key int, outcome, stop string) {
+func (s *verifFlightSched) release(key int, outcome, stop string) { s.releaseOn(1, key, outcome, stop) }
+
+func (s *verifFlightSched) releaseOn(ob, key int, outcome, stop string) {
+	if ob < 1 {
+		ob = 1
+	}
 	gated, _, _ := s.settle()
 	for _, c := range gated {
-		if c.key == key {
+		if c.key == key && c.obj == ob {
 			switch stop {
 			case "del":
 				c.stop.Store(".beforeDelete")
@@ -306,10 +319,15 @@ func (s *verifFlightSched) release(key int, outcome, stop string) {
 }
 
 // cont lets the leader parked at a hook stop on this key run on
-func (s *verifFlightSched) cont(key int) {
+func (s *verifFlightSched) cont(key int) { s.contOn(1, key) }
+
+func (s *verifFlightSched) contOn(ob, key int) {
+	if ob < 1 {
+		ob = 1
+	}
 	_, _, hooked := s.settle()
 	for _, c := range hooked {
-		if c.key == key {
+		if c.key == key && c.obj == ob {
 			c.hookc <- struct{}{}
 			return
 		}
